@@ -70,6 +70,23 @@ def unstranded(loc: Dict[str, Any]) -> Dict[str, Any]:
     return {"c": loc["c"], "parts": [[p[0], p[1]] for p in loc["parts"]]}
 
 
+def origin_gene(rng: random.Random, length: int, up: int, down: int, strand: int, multi: bool = True) -> Dict[str, Any]:
+    """an origin-spanning gene [length-up, length) + [0, down) with 1-3 exons on each side of the origin, in
+       Biopython part order: forward = upper exons ascending then lower ascending; reverse = lower exons
+       descending then upper exons descending"""
+    def exons(lo: int, hi: int) -> List[List[int]]:
+        k = rng.choice([1, 1, 2, 2, 3]) if multi else 1
+        if hi - lo < 2 * k:
+            return [[lo, hi]]
+        cuts = sorted(rng.sample(range(lo + 1, hi), 2 * k - 2)) if k > 1 else []
+        cuts = [lo] + cuts + [hi]
+        return [[cuts[i], cuts[i + 1]] for i in range(0, len(cuts), 2) if cuts[i] < cuts[i + 1]]
+    lower, upper = exons(0, down), exons(length - up, length)
+    if strand == -1:
+        return compound([[a, b, -1] for a, b in reversed(lower)] + [[a, b, -1] for a, b in reversed(upper)])
+    return compound([[a, b, 1] for a, b in upper] + [[a, b, 1] for a, b in lower])
+
+
 def simple(lo: int, hi: int, s: Any = 1) -> Dict[str, Any]:
     return {"c": False, "parts": [[lo, hi, s]]}
 
@@ -94,6 +111,11 @@ class C03(Property):
         ("antismash/common/secmet/record.py", "Record.connect_locations"),
         ("antismash/common/secmet/record.py", "Record.get_distance_between_locations"),
         ("antismash/common/secmet/locations.py", "connect_locations"),
+        ("antismash/common/secmet/locations.py", "_reduce_parts_to_location"),
+        ("antismash/common/secmet/locations.py", "split_origin_bridging_location"),
+        ("antismash/common/secmet/locations.py", "_merge_over_origin"),
+        ("antismash/common/secmet/locations.py", "_split_sections_around_origin"),
+        ("antismash/common/secmet/locations.py", "_is_wrapping_shorter"),
         ("antismash/common/secmet/locations.py", "get_distance_between_locations"),
         ("antismash/common/secmet/locations.py", "locations_overlap"),
         ("antismash/common/secmet/locations.py", "location_contains_other"),
@@ -202,17 +224,13 @@ class C03(Property):
         tail = rng.choice([0, 1, c - 1 - first_lo, c - first_lo, c + 1 - first_lo, c, 3 * c, 10 * c])
         length = last_end + max(tail, 0)
         if circular and rng.random() < 0.35 and first_lo >= 1:
-            k = rng.choice([1, 2, unit])
+            k = rng.choice([1, 2, unit, 5, 7])
             m = rng.choice([1, first_lo, max(first_lo // 2, 1), max(first_lo - 1, 1)])
             m = max(1, min(m, first_lo + (1 if rng.random() < 0.2 else 0)))
             if length - k < last_end and rng.random() < 0.7:
                 length = last_end + k + rng.choice([0, 1, c])
             if length - k >= m and length - k > 0:
-                if rng.random() < 0.5:
-                    parts = [[length - k, length, 1], [0, m, 1]]
-                else:
-                    parts = [[0, m, -1], [length - k, length, -1]]
-                genes.append({"loc": compound(parts)})
+                genes.append({"loc": origin_gene(rng, length, k, m, rng.choice([1, -1]))})
         length = max(length, 1)
         rng.shuffle(genes)       # insertion order into the record (matters for ties only)
         for n, g in enumerate(genes):
@@ -283,11 +301,10 @@ class C03(Property):
         elif kind == "chain-through-origin":
             # an origin-spanning anchor plus anchors at chosen gaps before / after it, and far ones
             length = rng.choice([12 * c, 30 * c, 7 * c + 3]) + 4 * gl
-            up = rng.choice([1, gl, c])
-            down = rng.choice([1, gl, c])
+            up = rng.choice([1, gl, c, 5, 6])
+            down = rng.choice([1, gl, c, 5, 6])
             strand = rng.choice([1, -1])
-            parts = [[length - up, length, 1], [0, down, 1]] if strand == 1 else [[0, down, -1], [length - up, length, -1]]
-            genes = [{"loc": compound(parts), "hits": [["a", 0]], "hasres": True}]
+            genes = [{"loc": origin_gene(rng, length, up, down, strand), "hits": [["a", 0]], "hasres": True}]
             pos = down
             for _ in range(rng.choice([0, 1, 2])):
                 pos += rng.choice([c - 1, c, c + 1, 0])
